@@ -158,7 +158,7 @@ func c09RunMagnitude(r *core.Run) {
 	r.Bound("integer_alphabet", c09Ints(8))
 	r.Bound("lengths", []int{0, 1, 3, 8})
 	item := 0
-	do := func(family, expr string, spec string) {
+	c09MagnitudeSpace(func(family, expr, spec string) {
 		item++
 		if !r.Mine(item) || r.Expired() {
 			return
@@ -172,7 +172,11 @@ func c09RunMagnitude(r *core.Run) {
 		if item%3001 == 0 {
 			r.Sample(func() any { return map[string]any{"family": family, "expr": trunc(expr, 100), "doc": docText} })
 		}
-	}
+	})
+}
+
+// c09MagnitudeSpace enumerates the integer-magnitude space: every (family, expression, document specification).
+func c09MagnitudeSpace(do func(family, expr, spec string)) {
 	for _, n := range []int{0, 1, 3, 8} {
 		ints := c09Ints(n)
 		for _, kind := range []string{"array", "ascii", "mixed"} {
@@ -290,6 +294,47 @@ func c09Families() []c09Family {
 		{"expr-sum-chain", func(n int) (string, any) { return "a" + rep(" + a", n), map[string]any{"a": num(1)} }},
 		{"expr-pipes", func(n int) (string, any) { return "@" + rep(" | @", n), num(1) }},
 		{"expr-filters", func(n int) (string, any) { return "@" + rep("[?@]", n/8+1), []any{[]any{num(1)}} }},
+		{"wrap-paren-slice", func(n int) (string, any) {
+			return rep("(", n) + "a" + rep("[:])", n), map[string]any{"a": []any{num(1), num(2), num(3)}}
+		}},
+		{"wrap-paren-wildcard", func(n int) (string, any) {
+			return rep("(", n) + "a" + rep("[*])", n), map[string]any{"a": []any{num(1), num(2), num(3)}}
+		}},
+		{"wrap-paren-filter", func(n int) (string, any) {
+			return rep("(", n) + "a" + rep("[?@])", n), map[string]any{"a": []any{num(1), num(2), num(3)}}
+		}},
+		{"wrap-paren-flatten", func(n int) (string, any) {
+			return rep("(", n) + "a" + rep("[])", n), map[string]any{"a": []any{num(1), []any{num(2)}}}
+		}},
+		{"wrap-paren-star", func(n int) (string, any) {
+			return rep("(", n) + "a" + rep(".* | [0])", n), map[string]any{"a": map[string]any{"k": map[string]any{"k": num(1)}}}
+		}},
+		{"wrap-slices", func(n int) (string, any) {
+			return "a" + rep("[:]", n), map[string]any{"a": []any{num(1), num(2), num(3)}}
+		}},
+		{"wrap-wildcards", func(n int) (string, any) {
+			return "a" + rep("[*]", n/8+1), map[string]any{"a": []any{num(1), num(2), num(3)}}
+		}},
+		{"wrap-not", func(n int) (string, any) { return rep("!", n) + "a", map[string]any{"a": num(1)} }},
+		{"wrap-neg", func(n int) (string, any) { return rep("-", n) + " a", map[string]any{"a": num(1)} }},
+		{"wrap-abs", func(n int) (string, any) { return rep("abs(", n) + "a" + rep(")", n), map[string]any{"a": num(-1)} }},
+		{"wrap-to_array", func(n int) (string, any) { return rep("to_array(", n) + "a" + rep(")", n), map[string]any{"a": num(1)} }},
+		{"wrap-list", func(n int) (string, any) {
+			return rep("[", n) + "a" + rep("]", n) + rep("[0]", n), map[string]any{"a": num(1)}
+		}},
+		{"wrap-hash", func(n int) (string, any) {
+			return rep("{k: ", n) + "a" + rep("}", n) + rep(".k", n), map[string]any{"a": num(1)}
+		}},
+		{"wrap-pipe-paren", func(n int) (string, any) { return rep("(", n) + "a" + rep(" | @)", n), map[string]any{"a": num(1)} }},
+		{"wrap-let-alias", func(n int) (string, any) {
+			return "let $v0 = a in " + func() string {
+				var b strings.Builder
+				for i := 1; i <= n/4+1; i++ {
+					fmt.Fprintf(&b, "let $v%d = $v%d in ", i, i-1)
+				}
+				return b.String() + "$v" + strconv.Itoa(n/4+1)
+			}(), map[string]any{"a": num(1)}
+		}},
 		fam("project", "[*]", arr), fam("project-field", "[*].k", objs), fam("flatten", "[*].a[]", objs), fam("filter", "[?k > `500`].s", objs), fam("nested-projection", "[*].a[*]", objs),
 		fam("sort", "sort(@)", arr), fam("sort-strings", "sort([*].s)", objs), fam("sort_by", "sort_by(@, &k)[*].s", objs), fam("group_by", "group_by(@, &g) | keys(@)", objs), fam("max_by", "max_by(@, &k).s", objs),
 		fam("zip", "zip(@, @)", arr), fam("map", "map(&[@, @], @)", arr), fam("reverse", "reverse(@)", arr), fam("sum", "sum(@)", arr), fam("avg", "avg(@)", arr), fam("max", "max(@)", arr), fam("length", "length(@)", arr),
